@@ -445,13 +445,14 @@ PROPS['C16'] = dict(
                'over a 35-key alphabet (short, 8-character, HIERARCH-length, reserved prefixes, lower-case, punctuated, empty, END/HISTORY/CONTINUE/BSCALE/...) are replayed against an insertion-ordered list model; '
                'after every operation the whole store is compared with the model; must-reject inputs must throw and leave the store unchanged; every accepted entry must survive serialisation; LeakSanitizer per history.',
     level_note=NOTE_COMMON + '; typed reads are judged against stream extraction / strtod of the stored string',
-    technique='runtime monitor: abstract ordered-map model replayed against the real store, under ASan/UBSan/LSan',
-    targets=[T('h_aux.cpp', 'asan')],
-    passes=lambda tier, sc: [Pass('asan', 'h_aux.asan', 'C16', n(tier, 1500, 10000, sc), env=LEAK_ENV, stall_s=300)],
+    technique='runtime monitor: abstract ordered-map model replayed against the real store, under ASan/UBSan/LSan; uninitialised-memory independence by intervention (identical results for seven fill patterns of fresh heap memory)',
+    targets=[T('h_aux.cpp', 'asan'), T('h_junk.cpp', 'prod')],
+    passes=lambda tier, sc: [Pass('junk', 'h_junk.prod', 'C16junk', n(tier, 250, 2500, sc), stall_s=300),
+                             Pass('asan', 'h_aux.asan', 'C16', n(tier, 1500, 10000, sc), env=LEAK_ENV, stall_s=300)],
     level='exploration',
     rule='case = one history of 5-40 operations on one table; distinct_nontrivial counts distinct histories (hash of the (operation, key) sequence)',
     assumptions=ASSUME_COMMON,
-    require={'any': {'writes-accepted': 800, 'writes-rejected': 500, 'ops:roundtrip': 800, 'ops:remove': 300, 'ops:read': 500, 'keys-spelled-in-another-case-than-a-present-key': 200}},
+    require={'any': {'runs-compared-with-the-clean-heap-run': 1200, 'writes-accepted': 800, 'writes-rejected': 500, 'ops:roundtrip': 800, 'ops:remove': 300, 'ops:read': 500, 'keys-spelled-in-another-case-than-a-present-key': 200}},
 )
 
 
@@ -477,14 +478,15 @@ PROPS['C19'] = dict(
                'from the file plus the declared convolution, and compared with estimateMemory(path, n, dim). Files of 1-6 dimensions with mixed orders, 0-50 auxiliary keys of all lengths (incl. maximal), long knot vectors, '
                'with and without EXTENTS/PERIOD, and KNOTSn extensions stored out of index order; evidence reports the minimum and distribution of the slack so erosion is visible before it becomes a violation.',
     level_note=NOTE_COMMON + '; bytes requested are counted, not allocator fragmentation or alignment overhead (as the property is worded)',
-    technique='runtime monitor: byte-counting allocator (template parameter) vs estimateMemory',
-    targets=[T('h_mem.cpp', 'prod'), T('h_mem.cpp', 'asan')],
-    passes=lambda tier, sc: [Pass('prod', 'h_mem.prod', 'C19', n(tier, 320, 5000, sc), stall_s=300),
+    technique='runtime monitor: byte-counting allocator (template parameter) vs estimateMemory; uninitialised-memory independence by intervention (identical results for seven fill patterns of fresh heap memory)',
+    targets=[T('h_mem.cpp', 'prod'), T('h_mem.cpp', 'asan'), T('h_junk.cpp', 'prod')],
+    passes=lambda tier, sc: [Pass('junk', 'h_junk.prod', 'C19junk', n(tier, 250, 2500, sc), stall_s=300),
+                             Pass('prod', 'h_mem.prod', 'C19', n(tier, 320, 5000, sc), stall_s=300),
                              Pass('asan', 'h_mem.asan', 'C19', n(tier, 60, 400, sc), stall_s=600)],
     level='exploration',
     rule='case = (table file, up to 5 declarations: no convolution and convolutions with 2-8 kernel knots in sampled dimensions); distinct_nontrivial counts distinct (file, declaration) pairs measured',
     assumptions=ASSUME_COMMON,
-    require={'any': {'declarations-checked': 600, 'declarations-with-convolution': 300, 'files-with-knot-extensions-out-of-order': 40, 'files-with-a-long-knot-vector': 40}},
+    require={'any': {'runs-compared-with-the-clean-heap-run': 1200, 'declarations-checked': 600, 'declarations-with-convolution': 300, 'files-with-knot-extensions-out-of-order': 40, 'files-with-a-long-knot-vector': 40}},
 )
 PROPS['C20'] = dict(
     level_text='Model-based exploration plus fault enumeration: histories of 6-25 operations over 1-3 objects drawn from the whole public API with valid and invalid arguments (construct, path-construct good/bad, read good/truncated/missing into empty '
